@@ -43,6 +43,9 @@ pub struct Case {
     /// None: no file at all; Some(None): located by -c; Some(Some(depth)): by ancestor search from a cwd `depth` levels below
     pub locate: Option<Option<usize>>,
     pub lang: Lang,
+    /// with -c: a *different* typeshare.toml is discoverable from the working directory (the named file must win)
+    #[serde(default)]
+    pub decoy_in_cwd: bool,
 }
 
 const PROGRAM: &str = r#"#[typeshare]
@@ -164,8 +167,9 @@ impl SubCheck for C20 {
             any::<bool>(),
             prop_oneof![1 => Just(None), 3 => Just(Some(None)), 3 => (0usize..=3).prop_map(|d| Some(Some(d)))],
             select(crate::ts::ALL_LANGS.to_vec()),
+            any::<bool>(),
         )
-            .prop_map(|(cli, file, mappings, swift_decorators, swift_constraints, codablevoid_constraints, go_acronyms, go_no_pointer_slice, locate, lang)| Case { cli, file, mappings, swift_decorators, swift_constraints, codablevoid_constraints, go_acronyms, go_no_pointer_slice, locate, lang })
+            .prop_map(|(cli, file, mappings, swift_decorators, swift_constraints, codablevoid_constraints, go_acronyms, go_no_pointer_slice, locate, lang, decoy_in_cwd)| Case { cli, file, mappings, swift_decorators, swift_constraints, codablevoid_constraints, go_acronyms, go_no_pointer_slice, locate, lang, decoy_in_cwd })
             .boxed()
     }
     fn eval(&self, run: &Run, c: &Case, w: &mut Worker, counting: bool) -> Vec<Violation> {
@@ -187,6 +191,14 @@ impl SubCheck for C20 {
                 cli::write_tree(&root, &[("elsewhere/my-config.toml".into(), file_toml(c).into_bytes())]);
                 args.push("-c".into());
                 args.push(p.to_string_lossy().into_owned());
+                if c.decoy_in_cwd {
+                    // discoverable from the cwd by ancestor search; every setting differs from anything a case uses
+                    let decoy = "[swift]\nprefix = \"Decoy\"\ndefault_decorators = [\"DecoyProtocol\"]\n[kotlin]\nprefix = \"Decoy\"\npackage = \"decoy.pkg\"\nmodule_name = \"decoymod\"\n[scala]\npackage = \"decoy.pkg\"\nmodule_name = \"decoymod\"\n[go]\npackage = \"decoypkg\"\nuppercase_acronyms = [\"WIDGET\"]\n";
+                    cli::write_tree(&root, &[("typeshare.toml".into(), decoy.as_bytes().to_vec())]);
+                    let d = root.join("workdir").join("deeper");
+                    std::fs::create_dir_all(&d).unwrap();
+                    cwd = d;
+                }
             }
             Some(Some(depth)) => {
                 cli::write_tree(&root, &[("typeshare.toml".into(), file_toml(c).into_bytes())]);
@@ -204,7 +216,7 @@ impl SubCheck for C20 {
         args.push(proj.to_string_lossy().into_owned());
         let both_differ = SETTINGS.iter().any(|s| c.cli.contains_key(*s) && c.file.contains_key(*s) && c.locate.is_some());
         if counting {
-            run.label(&format!("c20/{}/locate={}", lang.short(), match c.locate { None => "no-file".to_string(), Some(None) => "-c".to_string(), Some(Some(d)) => format!("ancestor{d}") }));
+            run.label(&format!("c20/{}/locate={}", lang.short(), match c.locate { None => "no-file".to_string(), Some(None) => if c.decoy_in_cwd { "-c+decoy-in-cwd".to_string() } else { "-c".to_string() }, Some(Some(d)) => format!("ancestor{d}") }));
             if both_differ || matches!(c.locate, Some(Some(_))) {
                 run.nontrivial(hash_of(&(serde_json::to_string(c).unwrap_or_default(),)));
             }
